@@ -62,6 +62,11 @@ def _c10(tier, seed):
     return ps + families.canaries_into(ps)
 
 
+def _c04_aux(job):
+    from . import aux_c04
+    aux_c04.run(job)
+
+
 def _c04(tier, seed):
     ps = families.c04(tier, seed)
     return ps + families.canaries_c04(ps)
@@ -132,7 +137,7 @@ PROPS = {
         "explanation": "generated Debug::fmt verified verbatim: its builder-call trace (for every formatter state, hence compact and pretty) equals the effective shape's",
     },
     "C04": {
-        "family": _c04,
+        "family": _c04, "aux": _c04_aux,
         "bounds": {"quick": "generic-payload enums: 13 discriminant configurations x legal reprs x 7 variant shapes (1-4 variants), every third + all of b128/nonmono/b255; concrete layout grid: 10 payload kinds (u8,bool,char,&u8,NonZeroU8,Option<u8>,nested enum,(),[u8;0],u32) x 8 shapes + 7 specials; every 4th also through a #[repr(C)] wrapper with symbolic neighbour bytes",
                    "thorough": "all generic configurations; 14 shapes per payload kind"},
         "trusted": ["Kani's pinned nightly lays the grid enums out like the user's toolchain (irrelevant while the expansion contains no raw read)"],
